@@ -61,7 +61,7 @@ public:
 
         do_prune(now);
 
-        return do_insert_update(key, std::move(value), expire_time, a);
+        return do_insert_update(key, std::move(value), now, expire_time, a);
     }
 
     /**
@@ -87,7 +87,7 @@ public:
 
         for (auto& [key, value] : key_value_range)
         {
-            if (do_insert_update(key, std::move(value), expire_time, a))
+            if (do_insert_update(key, std::move(value), now, expire_time, a))
             {
                 ++inserted;
             }
@@ -284,9 +284,20 @@ private:
     };
 
     auto do_insert_update(
-        const key_type& key, value_type&& value, std::chrono::steady_clock::time_point expire_time, allow a) -> bool
+        const key_type&                       key,
+        value_type&&                          value,
+        std::chrono::steady_clock::time_point now,
+        std::chrono::steady_clock::time_point expire_time,
+        allow                                 a) -> bool
     {
-        const auto keyed_position = m_keyed_elements.find(key);
+        auto keyed_position = m_keyed_elements.find(key);
+        // An element written earlier in this same call can already be expired (zero TTL), treat it
+        // like the prune at the start of every call would: it does not exist anymore.
+        if (keyed_position != m_keyed_elements.end() && now >= keyed_position->second.m_ttl_position->m_expire_time)
+        {
+            do_erase(keyed_position);
+            keyed_position = m_keyed_elements.end();
+        }
         if (keyed_position != m_keyed_elements.end())
         {
             if (update_allowed(a))
